@@ -288,6 +288,13 @@ thread_local! {
     static MISSING_FIELD_FALLBACK: Cell<Option<Location>> = const { Cell::new(None) };
 }
 
+/// Move the fallback location within the scope of an enclosing [`MissingFieldLocationGuard`]
+/// (the map access points it at the key it is about to deliver; the container's guard restores
+/// the outer value when the mapping is done).
+pub(crate) fn set_missing_field_fallback(location: Location) {
+    MISSING_FIELD_FALLBACK.with(|c| c.set(Some(location)));
+}
+
 /// RAII guard for [`MISSING_FIELD_FALLBACK`]. Saves the previous value on creation,
 /// restores it on drop.
 pub(crate) struct MissingFieldLocationGuard {
@@ -298,11 +305,6 @@ impl MissingFieldLocationGuard {
     pub(crate) fn new(location: Location) -> Self {
         let prev = MISSING_FIELD_FALLBACK.with(|c| c.replace(Some(location)));
         Self { prev }
-    }
-
-    /// Update the fallback location in place, reusing the existing guard's restore point.
-    pub(crate) fn replace_location(&mut self, location: Location) {
-        MISSING_FIELD_FALLBACK.with(|c| c.set(Some(location)));
     }
 }
 
